@@ -391,7 +391,7 @@ def run_nrt(prog, share=False):
             sc.append(merge(b, parse_packet(ch)))
     return {'events': run.events, 'score': sc, 'raw_ok': ok_raw, 'elapsed': fr(main.elapsed_time()),
             'errors': run.errors, 'nrout': run.nrout, 'nended': run.nended, 'mutations': run.mutations,
-            'raw_len': len(raw), 'chunk_lens': [len(c) for c in chunks]}
+            'raw_len': len(raw), 'raw_hex': raw.hex() if len(raw) <= 4096 else None, 'chunk_lens': [len(c) for c in chunks]}
 
 
 # ---------------------------------------------------------------- rt: jitter injection
